@@ -86,9 +86,9 @@ def updateSh (sh : UpdateShape) (lt : K → K → Bool) (chain : K → Option V)
 
 /-- every structural fact the mirror depends on was recognised in the source -/
 def config : Option UpdateShape :=
-  match updateShape, iterYieldsRemoved, getShape, containsShape, aggregateShape, attachShape, ctxShape, instrShape with
-  | some sh, some true, some _, some _, some _, some _, some _, some _ => some sh
-  | _, _, _, _, _, _, _, _ => none
+  match updateShape, iterYieldsRemoved, getShape, containsShape, aggregateShape, attachShape, ctxShape, instrShape, duplicateShape with
+  | some sh, some true, some _, some _, some _, some _, some _, some _, some _ => some sh
+  | _, _, _, _, _, _, _, _, _ => none
 
 /-- the source under test -/
 def update (lt : K → K → Bool) (chain : K → Option V) (b : BM K V) (k : K) (v : Option V) : Option (Option V × BM K V) :=
@@ -215,6 +215,30 @@ def aggregateLazyDiff {K V H : Type} [DecidableEq K] (keyHash : K → H) (c : Ct
   | some p =>
     let r := getBigMapDiff c p
     some (⟨r.1.2.1, r.1.2.2, (diffUpdates b).map fun e => (e.1, keyHash e.1, e.2)⟩, ⟨[], [], some r.1.2.1⟩, r.2)
+
+/-- `duplicate()` — what DUP does to a big map: the same id, an own copy of the local layer (after it the two values
+diverge independently) -/
+def duplicate {K V : Type} (b : BM K V) : Option (BM K V) := duplicateShape.map fun _ => ⟨b.items, b.removed, b.ptr⟩
+
+/-! ### `merge_lazy_diff`: pytezos' own reading of an emitted entry -/
+
+/-- does `merge_lazy_diff` take an update for one that carries a value?  `falsy v`: the Micheline form of `v` is falsy in
+Python (an empty sequence: `{}` of a map / set / list value) -/
+def hasValue {V : Type} (t : MergeTest) (falsy : V → Bool) : Option V → Bool
+  | none => false
+  | some x =>
+    match t with
+    | .isNotNone => true
+    | .truthy => !falsy x
+
+/-- the big map `merge_lazy_diff` builds from the updates of the entry with this id: the updates taken to carry a value
+become the stored items (in the order of the entry), the keys of the others the removed keys -/
+def mergeWith {K V : Type} (t : MergeTest) (falsy : V → Bool) (p : Int) (ups : List (K × Option V)) : BM K V :=
+  ⟨ups.filter (fun u => hasValue t falsy u.2), (ups.filter fun u => !hasValue t falsy u.2).map (·.1), some p⟩
+
+/-- the source under test -/
+def mergeLazyDiff {K V : Type} (falsy : V → Bool) (p : Int) (ups : List (K × Option V)) : Option (BM K V) :=
+  mergeShape.map fun t => mergeWith t falsy p ups
 
 /-! ### the invariant of reachable big maps -/
 section inv
